@@ -526,3 +526,12 @@ package contractcourt
 //@   props C04
 //@   site call IsPayToTaproot nth 0: assert breachInfo.LocalOutputSignDesc != nil && arg(0) == breachInfo.LocalOutputSignDesc.Output.PkScript
 //@   site call IsPayToTaproot nth 1: assert breachInfo.LocalOutputSignDesc == nil && arg(0) == breachInfo.RemoteOutputSignDesc.Output.PkScript
+//@
+//@ // ---- pending retributions are loaded on every start: the taproot side bucket is read only if it exists (a retribution stored by a
+//@ // ---- version without taproot support has none - finding F34), the taproot data found is applied to THIS retribution, and every
+//@ // ---- stored retribution reaches the callback
+//@ func (rs *RetributionStore) ForAll$1$1
+//@   props C04
+//@   site call Get: assert arg(0) != nil && arg(1) == k
+//@   site call applyTaprootRetInfo: assert arg(1) == ret && ret(Get) != nil
+//@   site call cb: assert arg(0) == ret && ret(Decode, 0) == nil
